@@ -20,7 +20,7 @@ struct guard { mptr value; };           /* guard_ptr stub: get() returns the mar
 unsigned g_get_calls;
 static mptr G_get(struct guard g) { g_get_calls++; return g.value; }
 #define XV_INIT__ptr(self, v) ((self)->_ptr = (v))
-#define marked_ptr() ((mptr)0)          /* default constructed marked_ptr == (nullptr, 0) == zero word: mp.reset.null */
+#define marked_ptr(...) ((mptr)(__VA_ARGS__ + 0))          /* default constructed marked_ptr == (nullptr, 0) == zero word: mp.reset.null */
 
 /* ---- compare_exchange model replacing xv.h's (which drops the failure order and has no spurious failure in SEQ mode):
  *      nargs = number of arguments after the cell (expected, desired [, success [, failure]]) ---- */
